@@ -57,13 +57,13 @@ def parseStep (s : String) (K : Nat) : Option SStep :=
   | ["L", ks, p, d, m, r, q, st] =>
     match parseKeys ks K, num p, num d, num m, num r, num q, num st with
     | some ks, some p, some d, some m, some r, some q, some st =>
-      if p ≤ 1 && r ≤ 8 && st ≤ 7 && m ≤ 100 && q ≤ 100 then some (.load ks (mkParams p d m r q st 0)) else none
+      if p ≤ 1 && r ≤ 8 && st ≤ 7 && m ≤ 100 && q ≤ 100 then some (.load ks (mkParams p d m r q st 0) []) else none
     | _, _, _, _, _, _, _ => none
   | ["L", ks, p, d, m, r, q, st, x] =>
     match parseKeys ks K, num p, num d, num m, num r, num q, num st, num x with
     | some ks, some p, some d, some m, some r, some q, some st, some x =>
       if p ≤ 1 && r ≤ 8 && st ≤ 7 && m ≤ 100 && q ≤ 100 && 1 ≤ x && x ≤ 100 then
-        some (.load ks (mkParams p d m r q st x)) else none
+        some (.load ks (mkParams p d m r q st x) []) else none
     | _, _, _, _, _, _, _, _ => none
   | ["L", ks, p, d, m, r, q, st, x, l] =>
     -- tenth field: passive unhealthy_latency configured (then the ninth may be 0 = no own max_requests)
@@ -72,14 +72,22 @@ def parseStep (s : String) (K : Nat) : Option SStep :=
       -- l: 1 = unhealthy_latency, 2 = active health checks in the background (thresholds out of reach:
       -- they change nothing the model sees), 3 = both
       if p ≤ 1 && r ≤ 8 && st ≤ 7 && m ≤ 100 && q ≤ 100 && x ≤ 100 && 1 ≤ l && l ≤ 3 then
-        some (.load ks (mkParams p d m r q st x false (if l == 2 then 0 else 1))) else none
+        some (.load ks (mkParams p d m r q st x false (if l == 2 then 0 else 1)) []) else none
     | _, _, _, _, _, _, _, _, _ => none
   | ["Y", ks, p, d, m, r, q, st] =>
     -- a configuration whose upstreams come from a dynamic source returning `ks`
     match parseKeys ks K, num p, num d, num m, num r, num q, num st with
     | some ks, some p, some d, some m, some r, some q, some st =>
-      if p ≤ 1 && r ≤ 8 && st ≤ 7 && m ≤ 100 && q ≤ 100 then some (.load ks (mkParams p d m r q st 0 true)) else none
+      if p ≤ 1 && r ≤ 8 && st ≤ 7 && m ≤ 100 && q ≤ 100 then some (.load ks (mkParams p d m r q st 0 true) []) else none
     | _, _, _, _, _, _, _ => none
+  | ["Y", ks, p, d, m, r, q, st, fb] =>
+    -- …and static upstreams `fb` the handler falls back to while the source fails
+    match parseKeys ks K, num p, num d, num m, num r, num q, num st, parseKeys fb K with
+    | some ks, some p, some d, some m, some r, some q, some st, some fb =>
+      if p ≤ 1 && r ≤ 8 && st ≤ 7 && m ≤ 100 && q ≤ 100 then some (.load ks (mkParams p d m r q st 0 true) fb) else none
+    | _, _, _, _, _, _, _, _ => none
+  | ["E", "1"] => some (.srcFail true)
+  | ["E", "0"] => some (.srcFail false)
   | ["B", ks] => (parseKeys ks K).map .badLoad
   | ["C"] => some .unloadCur
   | ["N", "G"] => some (.newReq true)
@@ -101,7 +109,7 @@ def parseStep (s : String) (K : Nat) : Option SStep :=
     time pass: how long a request stays parked would decide whether its round trip was slow.) -/
 def usesLatency : List SStep → Bool
   | [] => false
-  | .load _ p :: rest => p.latency || usesLatency rest
+  | .load _ p _ :: rest => p.latency || usesLatency rest
   | _ :: rest => usesLatency rest
 
 def totalTicks : List SStep → Nat
